@@ -34,3 +34,27 @@ def show(cps): return ''.join(chr(c) for c in cps)
 _fmt_cache = {}
 def get_format(it, name):
     return enum_format(it, name.upper())
+
+def pin_numbers(ctx, v):
+    """replace symbolic numeric leaves (64-bit ints, decimal literals, floats) by the current model's value, pinning
+    the choice in the path condition; names (strings of 32-bit chars) stay symbolic.  Used before handing a value to
+    std's number formatting, which is outside the code under test."""
+    from fractions import Fraction
+    m = ctx.model()
+    def walk(x):
+        if isinstance(x, SymReal):
+            val = m.eval(x.r, model_completion=True)
+            fr = Fraction(val.numerator_as_long(), val.denominator_as_long())
+            ctx.assume(x.r == val); return float(fr)
+        if is_sym(x) and z3.is_bv(x) and x.size() == 64:
+            val = m.eval(x, model_completion=True); ctx.assume(x == val); return val.as_long()
+        if isinstance(x, (Agg, Enum)):
+            for i, y in enumerate(x.f): x.f[i] = walk(y)
+            return x
+        if isinstance(x, RVec) or isinstance(x, RSet):
+            for i, y in enumerate(x.items): x.items[i] = walk(y)
+            return x
+        if isinstance(x, RBox):
+            x.cell[0] = walk(x.cell[0]); return x
+        return x
+    return walk(v)
